@@ -21,6 +21,16 @@ Legs
   D  (cheap) one real orchestrator turn with graph.enabled=false (sub-gates on) over a pre-seeded
      state['graph'], and the same turn with the gate on (anti-vacuity).
 
+Validator boundary (the quantifier's domain is "every setting ACCEPTED BY THE VALIDATOR", so the candidate
+alphabet has to straddle the validator's acceptance boundary): every dimension additionally carries the
+special / out-of-range candidates of EDGE (NaN, +-inf, 0, negative, just outside the documented range,
+empty or inverted clamp interval, unknown mode).  Each candidate config (<=2 deviations, ordinary and
+special values mixed) is put through validate_config; the rejected ones are outside the quantifier (counted),
+the accepted ones are explored by legs A/B/C exactly like the ordinary ones.  Where an accepted special value
+leaves a clause of the statement without meaning (half-life <= 0, NaN floor) that clause is skipped and the
+invariants (bounds, no magnitude increase, keys, caps) are still judged; an exception raised by a GEL function
+under a validator-accepted config is a violation (<op>:raises), not a harness error.
+
 Oracle (derived from the property statement + docs/m11/overview.md, not from the code): see the
 check_* functions; each transition is checked for *preserving* the invariant (edges in bounds before
 the step must be in bounds after it), so one defect yields one signature.
@@ -38,6 +48,7 @@ from clematis.engine import gel
 from configs.validate import validate_config
 
 NAN = float("nan")
+INF = float("inf")
 ARROW = "→"
 EPS = 1e-9
 TURN = 7  # constant logical turn handed to observe/tick (keeps last_seen_turn out of the state explosion)
@@ -55,6 +66,20 @@ DIMS = [
     ("threshold", [0.2, 0.5]),
     ("attach", [0.5, 1.0, -0.5, 0.125]),   # 0.125 lies below the positive clamp_min 0.25 of the 4th clamp interval
 ]
+# special candidates per dimension: values on / beyond the validator's acceptance boundary.  They are ordinary
+# members of the configuration alphabet (same <=2-deviation treatment); validate_config decides membership.
+EDGE = {
+    "mode": ["multiplicative"],
+    "alpha": [NAN, INF, 0.0, -0.5],
+    "clamps": [(NAN, 1.0), (-1.0, NAN), (-INF, 1.0), (-1.0, INF), (0.5, 0.5), (0.75, 0.25)],
+    "half_life": [0, -1, NAN, INF],
+    "floor": [NAN, INF, -0.1, 2.0],
+    "top_k": [0, -1],
+    "pair_cap": [-1],
+    "threshold": [NAN, -0.1, 1.5],
+    "attach": [NAN, 2.0, -2.0],
+}
+DIMS_X = [(k, list(v) + list(EDGE.get(k, []))) for k, v in DIMS]
 OBSERVE_DIMS = {"mode", "alpha", "clamps", "top_k", "pair_cap", "threshold"}
 DIM_DEFAULT = {k: v[0] for k, v in DIMS}
 
@@ -79,11 +104,11 @@ def raw_graph_cfg(devs: dict, enabled: bool = True) -> dict:
 
 def all_devs(max_dev: int = 2):
     out = [{}]
-    for k, vals in DIMS:
+    for k, vals in DIMS_X:
         for v in vals[1:]:
             out.append({k: v})
     if max_dev >= 2:
-        for (k1, v1s), (k2, v2s) in itertools.combinations(DIMS, 2):
+        for (k1, v1s), (k2, v2s) in itertools.combinations(DIMS_X, 2):
             for v1 in v1s[1:]:
                 for v2 in v2s[1:]:
                     out.append({k1: v1, k2: v2})
@@ -104,6 +129,7 @@ class Cfg:
     def __init__(self, devs: dict):
         self.devs = dict(devs)
         self.accepted = True
+        self.unreadable = None
         try:
             self.full = validate_config({"graph": raw_graph_cfg(devs, True)})
             self.full_off = validate_config({"graph": raw_graph_cfg(devs, False)})
@@ -116,17 +142,27 @@ class Cfg:
             raise HarnessError("validator did not keep graph.enabled")
         self.ctx = types.SimpleNamespace(cfg=self.full, config=self.full)
         self.ctx_off = types.SimpleNamespace(cfg=self.full_off, config=self.full_off)
-        self.thr = float(g["coactivation_threshold"])
-        self.top_k = int(g["observe_top_k"])
-        self.pair_cap = int(g["pair_cap_per_obs"])
-        self.lo = float(g["update"]["clamp_min"])
-        self.hi = float(g["update"]["clamp_max"])
-        self.H = float(g["decay"]["half_life_turns"])
-        self.floor = float(g["decay"]["floor"])
-        self.attach = float(g["promotion"]["attach_weight"])
-        self.cap_m = int(g["merge"]["cap_per_turn"])
-        self.cap_s = int(g["split"]["cap_per_turn"])
-        self.cap_p = int(g["promotion"]["cap_per_turn"])
+        try:
+            self.thr = float(g["coactivation_threshold"])
+            self.top_k = int(g["observe_top_k"])
+            self.pair_cap = int(g["pair_cap_per_obs"])
+            self.lo = float(g["update"]["clamp_min"])
+            self.hi = float(g["update"]["clamp_max"])
+            self.H = float(g["decay"]["half_life_turns"])
+            self.floor = float(g["decay"]["floor"])
+            self.attach = float(g["promotion"]["attach_weight"])
+            self.cap_m = int(g["merge"]["cap_per_turn"])
+            self.cap_s = int(g["split"]["cap_per_turn"])
+            self.cap_p = int(g["promotion"]["cap_per_turn"])
+        except Exception as e:
+            # the validator accepted and "normalised" a GEL parameter that is not a number: the clauses of the
+            # statement that refer to it cannot hold for this config (reported by run(), config not explored)
+            self.unreadable = "%s: %s" % (type(e).__name__, str(e)[:160])
+            return
+        # clauses that keep a meaning under this config
+        self.decay_defined = self.H > 0                    # False for 0, negative, NaN
+        self.floor_defined = self.floor == self.floor      # False for NaN
+        self.attach_eff = min(max(self.attach, -1.0), 1.0) if self.attach == self.attach else self.attach
 
     def inb(self, w: float) -> bool:
         return (self.lo - 1e-12) <= w <= (self.hi + 1e-12)
@@ -144,11 +180,31 @@ def _edge(a, b, w):
                "attrs": {"coact": 1, "last_seen_turn": None}}
 
 
+def finite_bounds(c: Cfg):
+    """a finite interval inside the config's clamp interval for seeding the initial weights, or None when the
+    accepted clamp interval is empty / NaN (then no initial weight can satisfy the invariant: only 'absent')"""
+    lo, hi = c.lo, c.hi
+    if lo != lo or hi != hi or lo > hi or lo == INF or hi == -INF:
+        return None
+    if lo == -INF:
+        lo = -1.0 if hi == INF else min(-1.0, hi - 2.0)
+    if hi == INF:
+        hi = max(1.0, lo + 2.0)
+    return lo, hi
+
+
+def inits_for(c: Cfg):
+    return [i for i in INITS if i == "absent" or finite_bounds(c) is not None]
+
+
 def initial_store(name: str, c: Cfg):
     """'absent' -> None (state has no graph attribute); 'G4' -> 5 nodes, 4 edges inside [lo, hi]."""
     if name == "absent":
         return None
-    lo, hi = c.lo, c.hi
+    fb = finite_bounds(c)
+    if fb is None:
+        return None
+    lo, hi = fb
     strong = hi
     mid = hi / 2 if hi / 2 >= lo else hi
     weak = min(max(0.03125, lo), hi)
@@ -255,7 +311,34 @@ def check_keys(store, out, where):
 def ref_topk(c: Cfg, items):
     act = [(i, s) for (i, s) in as_tuples(items) if s >= c.thr]  # NaN >= thr is False
     act.sort(key=lambda t: (-t[1], t[0]))
-    return act[: c.top_k]
+    return act[: max(0, c.top_k)]   # an accepted top-k < 1 leaves no eligible item
+
+
+def differs(a, b) -> bool:
+    """content inequality that does not mistake a NaN weight for a change (NaN != NaN under ==)"""
+    if a == b:
+        return False
+    if a is None or b is None:
+        return True
+    return dump(a) != dump(b)
+
+
+class EngineRaised(Exception):
+    pass
+
+
+def engine(fn, *a, **kw):
+    """call into the repo; an exception there under a validator-accepted config is an outcome to report"""
+    try:
+        return fn(*a, **kw)
+    except HarnessError:
+        raise
+    except Exception as e:
+        raise EngineRaised("%s: %s" % (type(e).__name__, str(e)[:200]))
+
+
+def close(x: float, y: float) -> bool:
+    return x == y or abs(x - y) <= EPS   # x == y covers equal infinities
 
 
 def check_observe(c: Cfg, pre, post, items, metrics, exempt, out):
@@ -267,8 +350,9 @@ def check_observe(c: Cfg, pre, post, items, metrics, exempt, out):
             a, b = (ids[i], ids[j]) if ids[i] <= ids[j] else (ids[j], ids[i])
             allowed.add("%s%s%s" % (a, ARROW, b))
     pe, qe = pre["edges"], post["edges"]
-    changed = [k for k in sorted(set(pe) | set(qe)) if pe.get(k) != qe.get(k)]
+    changed = [k for k in sorted(set(pe) | set(qe)) if differs(pe.get(k), qe.get(k))]
     n_inc = 0
+    cap = max(0, c.pair_cap)
     for k in changed:
         if k not in qe:
             out.append(("observe:edge-removed", "observe(%s) removed edge %s" % (json.dumps(items), k)))
@@ -284,11 +368,11 @@ def check_observe(c: Cfg, pre, post, items, metrics, exempt, out):
         c1 = int((qe[k].get("attrs") or {}).get("coact", 0) or 0)
         n_inc += max(0, c1 - c0)
         exempt.discard(k)
-    if len(changed) > c.pair_cap or n_inc > c.pair_cap:
+    if len(changed) > cap or n_inc > cap:
         out.append(("observe:more-updates-than-pair-cap",
                     "observe(%s) pair_cap=%d but %d edges changed / %d co-activation increments" % (json.dumps(items), c.pair_cap, len(changed), n_inc)))
     pu = metrics.get("pairs_updated")
-    if isinstance(pu, int) and pu > c.pair_cap:
+    if isinstance(pu, int) and pu > cap:
         out.append(("observe:pairs_updated-metric-exceeds-cap", "pairs_updated=%d > pair_cap=%d" % (pu, c.pair_cap)))
     if isinstance(pu, int) and len(set(ids)) == len(ids) and pu != len(changed):
         out.append(("observe:pairs_updated-metric-mismatch",
@@ -305,8 +389,12 @@ def check_observe(c: Cfg, pre, post, items, metrics, exempt, out):
 
 
 def check_tick(c: Cfg, pre, post, dt, metrics, exempt, out):
-    f = 0.5 ** (float(dt) / c.H)
-    exact = (float(dt) / c.H) == int(float(dt) / c.H)
+    # the half-life rule has a meaning only for an accepted half-life > 0 (0 / negative / NaN: the decay amount
+    # and the floor sweep are not judged, the invariants below still are)
+    defined = c.decay_defined
+    f = 0.5 ** (float(dt) / c.H) if defined else 1.0
+    exact = defined and (float(dt) / c.H) == int(float(dt) / c.H)
+    floor_ok = defined and c.floor_defined
     pe, qe = pre["edges"], post["edges"]
     n_removed = n_decayed = 0
     for k in sorted(qe):
@@ -334,14 +422,14 @@ def check_tick(c: Cfg, pre, post, dt, metrics, exempt, out):
                                     dt, c.H, c.floor, k, w, w2, c.lo)))
                 else:
                     out.append(("tick:weight-outside-clamp", "tick(%d) took %s from %r to %r outside [%s,%s]" % (dt, k, w, w2, c.lo, c.hi)))
-            if abs(w2 - d) > EPS and abs(w2 - cl) > EPS:
+            if defined and w == w and not close(w2, d) and not close(w2, cl):
                 out.append(("tick:decay-amount", "tick(%d) H=%s: %s %r -> %r, half-life rule gives %r" % (dt, c.H, k, w, w2, d)))
-            if below_d and below_c and not tie:
+            if floor_ok and below_d and below_c and not tie:
                 out.append(("tick:kept-edge-below-floor", "tick(%d) H=%s floor=%s kept %s with |%r*%r| < floor" % (dt, c.H, c.floor, k, w, f)))
         else:
             n_removed += 1
             exempt.discard(k)
-            if (not below_d) and (not below_c) and not tie:
+            if floor_ok and w == w and (not below_d) and (not below_c) and not tie:
                 out.append(("tick:removed-edge-not-below-floor",
                             "tick(%d) H=%s floor=%s removed %s although |%r*%r|=%r >= floor" % (dt, c.H, c.floor, k, w, f, abs(d))))
     return n_removed, n_decayed
@@ -350,13 +438,13 @@ def check_tick(c: Cfg, pre, post, dt, metrics, exempt, out):
 def check_annotate_only(kind, pre, post, out):
     """merge / split passes: nodes and edges untouched, only meta[<kind>s] grows by appending."""
     lst = kind + "s"
-    if post["nodes"] != pre["nodes"] or post["edges"] != pre["edges"]:
+    if differs(post["nodes"], pre["nodes"]) or differs(post["edges"], pre["edges"]):
         out.append(("%s:mutates-graph" % kind, "%s pass changed nodes/edges" % kind))
     pm, qm = dict(pre["meta"]), dict(post["meta"])
     a, b = pm.pop(lst, []), qm.pop(lst, [])
-    if b[: len(a)] != a:
+    if differs(b[: len(a)], a):
         out.append(("%s:rewrites-annotations" % kind, "%s pass rewrote earlier meta.%s entries" % (kind, lst)))
-    if pm != qm:
+    if differs(pm, qm):
         out.append(("%s:mutates-meta" % kind, "%s pass changed meta keys other than %s: %s -> %s" % (kind, lst, dump(pm), dump(qm))))
     return len(b) - len(a)
 
@@ -373,7 +461,7 @@ def check_promote(c: Cfg, pre, post, exempt, out):
     pe, qe = pre["edges"], post["edges"]
     n_att = 0
     for k in sorted(set(pe) | set(qe)):
-        if pe.get(k) == qe.get(k):
+        if not differs(pe.get(k), qe.get(k)):
             continue
         if k not in qe:
             out.append(("promote:edge-removed", "promotion removed edge %s" % k))
@@ -382,12 +470,13 @@ def check_promote(c: Cfg, pre, post, exempt, out):
         if r.get("src") not in concepts and r.get("dst") not in concepts:
             out.append(("promote:non-concept-edge-modified", "promotion changed edge %s which joins no concept node" % k))
         w = wt(r)
-        if not (-1.0 - 1e-12 <= w <= 1.0 + 1e-12) or abs(w - c.attach) > EPS:
+        # documented rule: the configured attach weight, clamped to [-1, 1]
+        if not (-1.0 - 1e-12 <= w <= 1.0 + 1e-12) or not close(w, c.attach_eff):
             out.append(("promote:attach-weight", "promotion wrote weight %r on %s, configured attach_weight %r" % (w, k, c.attach)))
         exempt.add(k)
         n_att += 1
     for lst in ("merges", "splits"):
-        if pre["meta"].get(lst) != post["meta"].get(lst):
+        if differs(pre["meta"].get(lst), post["meta"].get(lst)):
             out.append(("promote:rewrites-annotations", "promotion changed meta.%s" % lst))
     return n_att
 
@@ -418,7 +507,19 @@ def run_pass(ctx, c: Cfg, state, kind, promos_out=None):
 
 def step(c: Cfg, store_json: str, exempt: set, op, st: Stats = None, all_perms: bool = True):
     """Execute one operation from the state encoded by store_json on fresh objects.
-    Returns (violations, next_store_json, next_exempt, outcome_class)."""
+    Returns (violations, next_store_json, next_exempt, outcome_class, nontrivial).  An exception raised by the
+    GEL function itself is a reported outcome (<op>:raises; the state is not advanced)."""
+    try:
+        return _step(c, store_json, exempt, op, st, all_perms)
+    except EngineRaised as e:
+        if st is not None:
+            st.add("transitions")
+            st.add("validated")
+        what = "%s under a validator-accepted config raised %s" % (json.dumps(op), e)
+        return [("%s:raises" % op[0], what)], store_json, set(exempt), (op[0], "raises"), False
+
+
+def _step(c: Cfg, store_json: str, exempt: set, op, st: Stats = None, all_perms: bool = True):
     out = []
     exempt = set(exempt)
     pre = norm_store(json.loads(store_json))
@@ -430,7 +531,7 @@ def step(c: Cfg, store_json: str, exempt: set, op, st: Stats = None, all_perms: 
         first = None
         for pi, perm in enumerate(perms):
             s = mk_state(store_json)
-            m = gel.observe_retrieval(c.ctx, s, as_tuples(perm), turn=TURN, agent="A")
+            m = engine(gel.observe_retrieval, c.ctx, s, as_tuples(perm), turn=TURN, agent="A")
             if st is not None:
                 st.add("transitions")
             post = norm_store(store_of(s), copy=False)
@@ -444,7 +545,7 @@ def step(c: Cfg, store_json: str, exempt: set, op, st: Stats = None, all_perms: 
             obs = (post, m.get("k_in"), m.get("k_used"), m.get("pairs_updated"))
             if first is None:
                 first = (obs, perm, post, ex, nchg, ntop)
-            elif obs != first[0]:
+            elif obs != first[0] and differs(list(obs), list(first[0])):
                 out.append(("observe:order-sensitive",
                             "observe(%s) and observe(%s) from the same state give different graphs/metrics" % (json.dumps(first[1]), json.dumps(perm))))
         _, _, post, exempt, nchg, ntop = first
@@ -452,7 +553,7 @@ def step(c: Cfg, store_json: str, exempt: set, op, st: Stats = None, all_perms: 
         nontrivial = nchg > 0 and len(perms) > 1
     elif kind == "tick":
         dt = op[1]
-        m = gel.tick(c.ctx, state, decay_dt=dt, turn=TURN, agent="A")
+        m = engine(gel.tick, c.ctx, state, decay_dt=dt, turn=TURN, agent="A")
         if st is not None:
             st.add("transitions")
             st.add("validated")
@@ -462,7 +563,7 @@ def step(c: Cfg, store_json: str, exempt: set, op, st: Stats = None, all_perms: 
         oc = ("tick", min(nrem, 2), min(ndec, 2))
         nontrivial = (nrem + ndec) > 0
     elif kind in ("merge", "split"):
-        ncand = run_pass(c.ctx, c, state, kind)
+        ncand = engine(run_pass, c.ctx, c, state, kind)
         if st is not None:
             st.add("transitions")
             st.add("validated")
@@ -475,7 +576,7 @@ def step(c: Cfg, store_json: str, exempt: set, op, st: Stats = None, all_perms: 
             st.add(kind + "_applied")
     elif kind == "promote":
         promos = []
-        run_pass(c.ctx, c, state, "promote", promos)
+        engine(run_pass, c.ctx, c, state, "promote", promos)
         if st is not None:
             st.add("transitions")
             st.add("validated")
@@ -484,7 +585,7 @@ def step(c: Cfg, store_json: str, exempt: set, op, st: Stats = None, all_perms: 
         check_keys(post, out, "after promote")
         # idempotence: applying the same promotions again changes nothing
         for p in promos:
-            gel.apply_promotion(c.ctx, state, json.loads(json.dumps(p)))
+            engine(gel.apply_promotion, c.ctx, state, json.loads(json.dumps(p)))
         if st is not None:
             st.add("transitions")
             st.add("validated")
@@ -542,13 +643,22 @@ def check_gate_off(c: Cfg, store_json: str, ops, st: Stats = None, ctx_shapes=No
                 g0 = store_of(state)
                 ref = json.loads(store_json)  # independent copy of the content
                 attrs0 = sorted(vars(state))
-            fn(ctx, state)
+            raised = None
+            try:
+                engine(fn, ctx, state)
+            except EngineRaised as e:
+                raised = str(e)
             if st is not None:
                 st.add("transitions")
                 st.add("validated")
                 st.add("gate_off_calls")
+            if raised is not None:
+                out.append(("gate-off:%s-raises" % op[0].rstrip("*"),
+                            "graph.enabled=false (%s ctx): %s raised %s" % (shape, json.dumps(op), raised)))
+                state = None
+                continue
             g1 = store_of(state)
-            if g1 is not g0 or sorted(vars(state)) != attrs0 or g1 != ref or (g1 is not None and list(g1) != list(ref)):
+            if g1 is not g0 or sorted(vars(state)) != attrs0 or differs(g1, ref) or (g1 is not None and list(g1) != list(ref)):
                 out.append(("gate-off:%s-touches-graph" % op[0].rstrip("*"),
                             "graph.enabled=false (%s ctx): %s changed state.graph from %s to %s" % (shape, json.dumps(op), dump(ref), dump(g1))))
                 state = None
@@ -557,6 +667,8 @@ def check_gate_off(c: Cfg, store_json: str, ops, st: Stats = None, ctx_shapes=No
 
 # ------------------------------------------------------------------ leg B: history BFS
 def bfs(c: Cfg, init: str, depth: int, ops, st: Stats, thorough: bool):
+    if init not in inits_for(c):
+        return 0, 0   # accepted clamp interval empty / NaN: no initial weight can satisfy the invariant
     s0 = initial_store(init, c)
     j0 = dump(s0) if s0 is not None else "null"
     if s0 is not None:
@@ -655,13 +767,13 @@ def _gate_worker(chunk, st: Stats, thorough):
         c = Cfg(devs)
         jd = _jsonable_devs(devs)
         g4 = initial_store("G4", c)
-        starts = ["null", dump(g4), dump({"nodes": {}, "edges": {}}), dump({})]
+        starts = ["null"] + ([dump(g4)] if g4 is not None else []) + [dump({"nodes": {}, "edges": {}}), dump({})]
         for sj in starts:
             for sig, what in check_gate_off(c, sj, ops, st, off_contexts(c)):
                 st.violation(sig, what, {"kind": "gate_off_shapes", "devs": jd, "store": json.loads(sj)})
             st.distinct("outcomes", ["gate_off", sj == "null"])
         if devs == {"mode": "proportional"}:
-            st.sample({"kind": "gate_off_shapes", "devs": jd, "store": json.loads(starts[1])})
+            st.sample({"kind": "gate_off_shapes", "devs": jd, "store": g4})
         if not devs:
             # gate absent == off (default OFF per docs): no graph key / empty graph block
             for label, root in (("no-graph-key", {}), ("empty-graph-block", {"graph": {}})):
@@ -742,15 +854,33 @@ def run(run: Run) -> None:
     depth = 4 if thorough else 3
     max_len = 4 if thorough else 3
     devs_all = all_devs(2)
-    accepted, rejected = [], 0
+    accepted, rejected, special_acc = [], 0, {}
+    inits = {}
     for d in devs_all:
-        if Cfg(d).accepted:
-            accepted.append(d)
-        else:
+        c = Cfg(d)
+        if not c.accepted:
             rejected += 1
+            continue
+        special = sorted("%s=%s" % (k, json.dumps(_jsonable_devs({k: v})[k])) for k, v in d.items()
+                         if any(repr(v) == repr(e) for e in EDGE.get(k, [])))
+        for sp in special:
+            special_acc[sp] = special_acc.get(sp, 0) + 1
+        if c.unreadable is not None:
+            run.add("transitions")
+            run.add("validated")
+            run.violation("config:accepted-parameter-not-a-number",
+                          "validate_config accepted %s but a normalised GEL parameter is not a number (%s)" % (
+                              json.dumps(_jsonable_devs(d)), c.unreadable),
+                          {"kind": "config", "devs": _jsonable_devs(d)})
+            continue
+        accepted.append(d)
+        inits[len(accepted) - 1] = inits_for(c)
     run.notes["configs_enumerated"] = len(devs_all)
     run.notes["configs_accepted_by_validator"] = len(accepted)
     run.notes["configs_rejected_by_validator"] = rejected
+    # special (validator-boundary) candidate values the validator let through, with the number of configs each
+    run.notes["special_values_accepted"] = dict(sorted(special_acc.items()))
+    run.notes["special_values_enumerated"] = sum(len(v) for v in EDGE.values())
     run.notes["observe_item_bound"] = max_len
     ops = ops_alphabet(False)
     run.notes["ops_per_state"] = ("%d (base list alphabet); %d (extended, configs with <=1 deviation)" % (
@@ -769,16 +899,16 @@ def run(run: Run) -> None:
     # leg B
     # quick: depth 3, base list alphabet.  thorough: depth 4; configs with <=1 deviation use the extended list
     # alphabet (incl. two 4-distinct-item lists = 24 orders each); the default config additionally to depth 5.
-    bfs_items = [(d, init, depth, thorough and len(d) <= 1) for d in accepted for init in INITS]
+    bfs_items = [(d, init, depth, thorough and len(d) <= 1) for i, d in enumerate(accepted) for init in inits[i]]
     if thorough:
         bfs_items = [({}, init, 5, False) for init in INITS] + bfs_items
     run.pmap(_bfs_worker, bfs_items, chunks=len(bfs_items))
     run.notes["wall_leg_B_s"] = round(_time.time() - _t, 1)
     _t = _time.time()
     # leg A
-    obs_devs = [d for d in accepted if set(d) <= OBSERVE_DIMS]
+    obs_devs = [(i, d) for i, d in enumerate(accepted) if set(d) <= OBSERVE_DIMS]
     run.notes["observe_leg_configs"] = len(obs_devs)
-    obs_items = [(d, init) for d in obs_devs for init in INITS]
+    obs_items = [(d, init) for i, d in obs_devs for init in inits[i]]
     run.pmap(_observe_worker, obs_items, extra=(max_len,), chunks=len(obs_items))
     run.notes["wall_leg_A_s"] = round(_time.time() - _t, 1)
     _t = _time.time()
@@ -805,17 +935,24 @@ def run(run: Run) -> None:
         run.distinct("outcomes", ["orch", list(res[False]), list(res[True])])
 
     run.notes["bfs_depth_bound"] = "4 (all configs); 5 (default config)" if thorough else "3"
-    run.rule = ("B: per validator-accepted config (<=2 deviations over %d dimensions) x initial graph {absent,G4}: BFS to depth %s "
+    run.rule = ("Configs: every <=2-deviation combination over %d dimensions whose value lists include, per dimension, the "
+                "validator-boundary candidates (NaN, +-inf, 0, negative, out of range, empty/inverted clamp interval, unknown "
+                "mode: %d special values); validate_config decides membership (rejected = outside the quantifier).  "
+                "B: per validator-accepted config x initial graph {absent,G4}: BFS to depth %s "
                 "over %s operations (observe lists with every distinct permutation, tick dt in {0,1,5}, merge/split/promote "
                 "passes), merged by canonical JSON of state.graph + promotion-written edge set; every operation also with the "
                 "gate closed at every state.  A: every multiset of <=%d items (<=1 deviation; one item fewer for 2-deviation "
                 "configs) over {a,b,c}x{NaN,.1,.2,.5,.9} in every order from {absent,G4}.  C: closed gate x 4 ctx shapes x 4 stores. "
                 "non-trivial = the step changed the graph (observe: and >1 order was run)" % (
-                    len(DIMS), run.notes["bfs_depth_bound"], run.notes["ops_per_state"], max_len))
+                    len(DIMS), run.notes["special_values_enumerated"], run.notes["bfs_depth_bound"], run.notes["ops_per_state"], max_len))
     run.assume("item ids are plain strings without the key separator '→' (ids containing it can make two unordered pairs collide on one key; not in the alphabet)")
     run.assume("decay_dt >= 0 (tick is only ever called with 1 by the orchestrator)")
     run.assume("edges last written by a promotion pass are exempt from the update clamp until observed again (promotion clamps to [-1,1] by its own documented rule)")
     run.assume("the additive/proportional increment itself, and WHICH pairs survive a binding pair cap, are not part of the statement and are not checked (only: within clamp, <= cap, among the eligible items, order-insensitive)")
+    run.assume("an accepted half-life <= 0 / NaN or NaN floor leaves the decay amount and the floor sweep without a meaning: those two "
+               "clauses are skipped for such configs (bounds, no magnitude increase, keys, caps are still judged); infinite clamp "
+               "bounds are bounds (a weight of +inf lies within [-1, +inf]); NaN never lies within any bounds")
+    run.assume("special candidate values are floats/ints as YAML would deliver them (.nan, .inf); string spellings are not enumerated")
     run.assume("where clamp_min>0 makes 're-clamp then floor' and 'floor then re-clamp' disagree, either removal decision is accepted")
 
 
@@ -824,6 +961,8 @@ def _replay_history(case):
     c = Cfg(devs)
     if not c.accepted:
         return [("replay:config-rejected", c.err)]
+    if c.unreadable is not None:
+        return [("config:accepted-parameter-not-a-number", c.unreadable)]
     s0 = initial_store(case["init"], c)
     # plain function calls on ONE live state object (no JSON round trip between steps) ...
     state = types.SimpleNamespace()
@@ -833,8 +972,10 @@ def _replay_history(case):
     ex = set()
     for op in case["history"]:
         sj = dump(store_of(state)) if store_of(state) is not None else "null"
-        viol, nj, ex, _, _ = step(c, sj, ex, op)
+        viol, nj, ex, oc, _ = step(c, sj, ex, op)
         out.extend(viol)
+        if tuple(oc[1:]) == ("raises",):
+            return out   # the engine raised on this operation: reported, history ends here
         # ... advance the live object with the real call and cross-check the explorer's successor
         if op[0] == "observe":
             gel.observe_retrieval(c.ctx, state, as_tuples(op[1]), turn=TURN, agent="A")
@@ -862,6 +1003,9 @@ def replay(case):
         root = case["root"]
         res = check_gate_off(c, dump(case["store"]), ops_alphabet(False), None,
                              [("dict", root), ("ns", types.SimpleNamespace(cfg=root, config=root))])
+    elif kind == "config":
+        c = Cfg(_devs_from_json(case["devs"]))
+        res = [("config:accepted-parameter-not-a-number", c.unreadable)] if (c.accepted and c.unreadable is not None) else []
     elif kind == "orchestrator":
         class _R:  # minimal stand-in for Run
             scratch = None
